@@ -1,11 +1,11 @@
 """Harness registry: which #[kani::proof] decides which property, at which tier, with which bound."""
 
-DEFAULT_MODELS = ["indexmap"]
+DEFAULT_MODELS = ["indexmap", "flate2", "weezl", "log"]
 
 HARNESSES = []
 
 
-def H(name, module, props, funcs, bound, timeout=300, mem_gb=6, **kw):
+def H(name, module, props, funcs, bound, timeout=300, mem_gb=10, **kw):
     d = dict(name=name, module=module, props=props, funcs=funcs, bound=bound, timeout=timeout, mem_gb=mem_gb)
     d.update(kw)
     HARNESSES.append(d)
@@ -19,6 +19,122 @@ H("c09_paeth", "png.rs", {"C09": Q}, ["filters::png::paeth_predict"],
 for ft in ("none", "sub", "up", "avg", "paeth"):
     H(f"c09_row_{ft}_4", "png.rs", {"C09": Q}, ["filters::png::decode_row"],
       "all rows of length 0..=4 x previous rows x bpp 1..=3 vs PNG 9.2 reconstruction", timeout=300)
+
+for n, tier, to in ((1, Q, 200), (2, Q, 300), (3, Q, 500), (4, Q, 900), (5, T, 1800), (6, T, 2700), (7, T, 3600)):
+    H(f"c09_ascii85_eod_{n}", "object.rs", {"C09": tier}, ["object::Stream::decode_ascii85"],
+      f"all 256^{n} bodies of exactly {n} bytes followed by the EOD marker '~>' vs ISO 32000-1 7.4.3 reference decoder", timeout=to,
+      mem_gb=10 if n >= 4 else 6)
+for n, tier, to in ((2, Q, 600), (3, T, 1800)):
+    H(f"c09_ascii85_noeod_{n}", "object.rs", {"C09": tier}, ["object::Stream::decode_ascii85"],
+      f"all inputs of exactly {n} bytes without EOD marker vs ISO 32000-1 7.4.3 reference decoder", timeout=to, mem_gb=10)
+for n, tier, to in ((4, Q, 600), (5, Q, 900), (6, T, 2700)):
+    H(f"c04_ascii85_nopanic_{n}", "object.rs", {"C04": tier}, ["object::Stream::decode_ascii85"],
+      f"all 256^{n} inputs of exactly {n} bytes: no panic (overflow checks on), returns Ok or Err", timeout=to, mem_gb=8)
+H("c09_predictor_params", "object.rs", {"C09": Q}, ["object::Stream::decompress_predictor"],
+  "Predictor 0..=20, Columns 1..=10^6, Colors 1..=32, Bits in {8,16}, each key present/absent; png::decode_frame replaced by a recording stub",
+  stubs=["filters::png::decode_frame -> recording stub"])
+H("c09_predictor_none", "object.rs", {"C09": Q}, ["object::Stream::decompress_predictor"], "no DecodeParms, all 3-byte data")
+H("c04_predictor_params_any", "object.rs", {"C04": Q}, ["object::Stream::decompress_predictor"],
+  "Predictor 12 with ANY i64 Columns, Colors, BitsPerComponent; decode_frame replaced by a recording stub",
+  stubs=["filters::png::decode_frame -> recording stub"])
+for g in ("c2_k1_b8", "c1_k1_b16", "c1_k3_b8", "c2_k1_b16"):
+    H(f"c09_predictor_frame_{g}", "object.rs", {"C09": Q if g != "c2_k1_b16" else T},
+      ["object::Stream::decompress_predictor", "filters::png::decode_frame", "filters::png::decode_row"],
+      f"geometry {g} (columns/colors/bits), two rows, all filter bytes and data bytes, predictor 10..=15, vs PNG 9.2", timeout=600)
+H("c09_length_set_ops", "object.rs", {"C09": Q}, ["object::Stream::new", "object::Stream::set_content", "object::Stream::set_plain_content", "object::Stream::decompress"],
+  "3-byte initial content, new content of 0..=2 symbolic bytes, op in {set_content, set_plain_content, decompress}")
+H("c09_compress_never_longer", "object.rs", {"C09": Q}, ["object::Stream::compress"],
+  "22-byte content, encoder stub output length arbitrary 0..=24, pre-existing Filter present/absent", timeout=600)
+H("c09_chain_single_dict", "object.rs", {"C09": Q}, ["object::Stream::decompressed_content", "object::Stream::filters", "object::Stream::decompress_zlib", "object::Stream::decompress_lzw", "object::Stream::decompress_predictor"],
+  "one filter (Flate|LZW) as Name or 1-array, DecodeParms dict with EarlyChange absent/0/1 and Predictor 12 absent/present, all 4-byte contents; codecs are tagged transparent stubs", timeout=900)
+H("c09_chain_parms_array", "object.rs", {"C09": Q}, ["object::Stream::decompressed_content"],
+  "1..=2 filters over {Flate,LZW}, DecodeParms as an array parallel to the filters (dict or null per stage), all 4-byte contents", timeout=900)
+H("c09_chain_order", "object.rs", {"C09": Q}, ["object::Stream::decompressed_content", "object::Stream::decode_ascii85"],
+  "chains of 2..=3 filters over {Flate,LZW,ASCII85}, no parameters, all 5-byte contents", timeout=1200, mem_gb=10)
+
+# ---------------------------------------------------------------- writer kernels (C01/C03/C14/C19)
+WK = {"C01": Q, "C03": Q, "C14": Q}
+for n, tier in ((1, Q), (2, Q), (3, T)):
+    H(f"c01_name_{n}", "writer.rs", {"C01": tier, "C03": tier, "C14": tier}, ["writer::Writer::write_name"],
+      f"all names of exactly {n} bytes: token is regular printable ASCII and an ISO 7.3.5 reader recovers the bytes", timeout=900 if n < 3 else 2700)
+for n, tier in ((1, Q), (2, Q), (3, Q), (4, T)):
+    H(f"c01_litstr_{n}", "writer.rs", {"C01": tier, "C03": tier, "C14": tier}, ["writer::Writer::write_string"],
+      f"all literal strings of exactly {n} bytes: an ISO 7.3.4.2 reader (escapes, octal, balanced parentheses, EOL normalisation) recovers the bytes", timeout=900 if n < 4 else 2700)
+H("c01_hexstr_2", "writer.rs", WK, ["writer::Writer::write_string"], "all hex strings of 2 bytes", timeout=900)
+H("c01_int_i16", "writer.rs", WK, ["writer::Writer::write_object"], "all i16 integers read back by a decimal reader", timeout=600)
+H("c01_int_i64", "writer.rs", {"C01": T, "C03": T, "C14": T}, ["writer::Writer::write_object"], "all i64 integers read back by a decimal reader", timeout=2700, mem_gb=10)
+H("c03_xref_entry", "writer.rs", {"C01": T, "C03": T}, ["xref::XrefEntry::write_xref_entry"], "all (u32 offset, u16 generation): entry is exactly 20 bytes and both fields read back", timeout=2700, mem_gb=10)
+H("c03_xref_entry_free", "writer.rs", {"C03": Q}, ["xref::XrefEntry::write_xref_entry"], "Free / UnusableFree / Compressed entries are 20-byte 'f' entries", timeout=900)
+H("c19_counting_write", "writer.rs", {"C19": Q, "C03": Q}, ["writer::CountingWrite::write", "writer::CountingWrite::write_all"],
+  "sink budget 0..=12, chunk 1..=4, failure kind {Err, Ok(0)}, one transient Interrupted at any offset; 9 bytes written via write_all/write!", timeout=900)
+
+# ---------------------------------------------------------------- C16 text strings / encodings ---
+H("c16_text_string_rt_1", "cds.rs", {"C16": Q}, ["common_data_structures::text_string", "common_data_structures::decode_text_string", "encodings::encode_utf16_be", "encodings::bytes_to_string"],
+  "every Unicode scalar value as a one-character string: text_string then decode_text_string returns it", timeout=900, mem_gb=8)
+H("c16_text_string_rt_2", "cds.rs", {"C16": T}, ["common_data_structures::text_string", "common_data_structures::decode_text_string"],
+  "every pair of Unicode scalar values as a two-character string", timeout=2700, mem_gb=12)
+H("c16_text_string_utf8_bom", "cds.rs", {"C16": Q}, ["common_data_structures::decode_text_string", "encodings::encode_utf8"],
+  "every scalar value, UTF-8 with byte-order mark", timeout=900, mem_gb=8)
+for n, tier, to in ((3, Q, 600), (4, Q, 900), (5, T, 2700)):
+    H(f"c04_decode_text_string_{n}", "cds.rs", {"C04": tier, "C16": tier}, ["common_data_structures::decode_text_string"],
+      f"all 256^{n} raw strings of exactly {n} bytes: Ok or Err, no panic", timeout=to, mem_gb=8)
+for t in ("standard", "macroman", "macexpert", "winansi", "pdfdoc"):
+    H(f"c16_table_{t}", "encodings.rs", {"C16": Q}, ["encodings::bytes_to_string"],
+      f"{t} table x all 256 bytes: decode total, equals the table cell, <= 1 char", timeout=600, mem_gb=6)
+H("c16_reencode_winansi", "encodings.rs", {"C16": T}, ["encodings::bytes_to_string", "encodings::string_to_bytes"],
+  "WinAnsi x all 256 bytes: decode-encode-decode stable", timeout=3000, mem_gb=8)
+H("c16_tables_published_rules", "encodings.rs", {"C16": Q}, ["encodings::mappings"], "all 256 bytes vs Annex D rules (printable ASCII, Latin-1 range)", timeout=300)
+H("c16_encode_utf16_be", "encodings.rs", {"C16": Q}, ["encodings::encode_utf16_be"], "every Unicode scalar value", timeout=600)
+
+# ---------------------------------------------------------------- C05 / C06 primitives ----------
+H("c05_pkcs5_roundtrip", "pkcs5.rs", {"C05": Q, "C06": Q}, ["encryption::pkcs5::Pkcs5::raw_pad", "encryption::pkcs5::Pkcs5::raw_unpad"],
+  "all 16-byte blocks x all pad positions 0..=15", timeout=600)
+H("c05_pkcs5_unpad_spec", "pkcs5.rs", {"C05": Q, "C06": Q}, ["encryption::pkcs5::Pkcs5::raw_unpad"],
+  "all 16-byte blocks: accepted iff PKCS#5-well-formed", timeout=600)
+FS300 = ["-Z", "unstable-options", "--cbmc-args", "--max-field-sensitivity-array-size", "300"]
+H("c06_rc4_key_vector", "rc4.rs", {"C05": Q, "C06": Q}, ["encryption::rc4::Rc4::new", "encryption::rc4::Rc4::encrypt", "encryption::rc4::Rc4::decrypt"],
+  "key 'Key' (published vector), all 8-byte plaintexts; decrypt inverts encrypt", kani_args=FS300, timeout=900)
+H("c06_rc4_ref_key40", "rc4.rs", {"C06": Q, "C05": Q}, ["encryption::rc4::Rc4::new", "encryption::rc4::Rc4::apply_keystream"], "one concrete 40-bit key, all 6-byte plaintexts vs reference RC4", kani_args=FS300, timeout=900)
+H("c06_rc4_ref_key128", "rc4.rs", {"C06": Q}, ["encryption::rc4::Rc4::new", "encryption::rc4::Rc4::apply_keystream"], "one concrete 128-bit key, all 6-byte plaintexts vs reference RC4", kani_args=FS300, timeout=900)
+H("c06_rc4_ref_symkey1", "rc4.rs", {"C06": T}, ["encryption::rc4::Rc4::new", "encryption::rc4::Rc4::apply_keystream"], "every 1-byte key x all 2-byte plaintexts vs reference RC4", kani_args=FS300, timeout=2700, mem_gb=16)
+H("c06_rc4_ref_symkey2", "rc4.rs", {"C06": T}, ["encryption::rc4::Rc4::new", "encryption::rc4::Rc4::apply_keystream"], "every 2-byte key x all 2-byte plaintexts vs reference RC4", kani_args=FS300, timeout=2700, mem_gb=16)
+
+# ---------------------------------------------------------------- C02 / C07 / C04 structural ----
+XF = ["parser_aux::decode_xref_stream", "parser_aux::read_big_endian_integer", "parser_aux::parse_integer_array", "xref::Xref::insert"]
+H("c02_xrefstm_c6_w2", "parser_aux.rs", {"C02": Q, "C07": Q, "C04": Q}, XF,
+  "W each 0..=2, Index [start 0..=3, count 0..=2] or absent (Size 0..=2), all 6-byte contents vs ISO 7.5.8 reference", timeout=1200, mem_gb=12)
+H("c02_xrefstm_c8_w4", "parser_aux.rs", {"C02": T, "C07": T, "C04": T}, XF,
+  "W each 0..=4, Index [start 0..=3, count 0..=2] or absent, all 8-byte contents", timeout=3000, mem_gb=16)
+H("c02_xrefstm_two_sections", "parser_aux.rs", {"C02": Q, "C07": Q}, XF, "two subsections [s0 1 s1 1], s0 != s1 in 0..=4, W [1 1 1], all 6-byte contents", timeout=1200, mem_gb=12)
+H("c01_xrefstm_entry_packing", "parser_aux.rs", {"C01": Q, "C03": Q}, ["parser_aux::read_big_endian_integer"], "all (u8,u32,u16) entries packed [1 4 2] big-endian read back", timeout=600)
+H("c04_xrefstm_hostile_widths", "parser_aux.rs", {"C04": Q}, XF, "W entries any i64 <= 4 or >= 2^44, 6-byte content; allocator model caps allocations at 4 KiB",
+  timeout=1200, mem_gb=12, stubs=["std::alloc::{alloc,alloc_zeroed,realloc,dealloc} -> fixed 4 KiB block arena (allocation above it fails an assertion)"])
+H("c04_xrefstm_hostile_index", "parser_aux.rs", {"C04": Q}, XF, "Index start any i64, count <= 3 or >= 2^40, Size any i64, W each 0..=1, 6-byte content", timeout=1200, mem_gb=12)
+H("c07_xref_merge_newest_wins", "xref.rs", {"C07": Q, "C02": Q}, ["xref::Xref::merge"], "ids 1..=3, presence and offsets symbolic in both tables", timeout=900)
+H("c02_xref_max_id", "xref.rs", {"C02": Q}, ["xref::Xref::max_id"], "any subset of 4 ids", timeout=600)
+for n in ("ab_6", "aab_7", "aa_6"):
+    H(f"c02_search_substring_{n}", "reader.rs", {"C02": Q, "C04": Q}, ["reader::Reader::search_substring"],
+      f"pattern/buffer {n}: all buffers over the pattern alphabet + 1 foreign byte, all start positions, vs last-occurrence reference", timeout=900)
+
+# ---------------------------------------------------------------- C12 / C13 document level -------
+RS = ["std::hash::RandomState::new -> fixed keys"]
+H("c13_dereference_cycles", "document.rs", {"C13": Q}, ["document::Document::dereference"],
+  "3 objects each a reference to 1..=4 (4 dangling) or an integer; start reference symbolic; DEREF_LIMIT 128 covered by unwind 132", timeout=1200, mem_gb=12, stubs=RS)
+H("c12_page_iter_tree4", "document.rs", {"C12": Q, "C13": Q}, ["document::PageTreeIter::new", "document::PageTreeIter::next", "document::PageTreeIter::kids", "document::Document::catalog"],
+  "all well-formed page trees with 4 nodes below the root (each Page or Pages, any parent among lower-numbered Pages nodes): page_iter equals reference DFS", timeout=1800, mem_gb=12, stubs=RS)
+
+H("c03_write_xref_4", "writer.rs", {"C03": Q, "C01": Q}, ["writer::Writer::write_xref", "xref::XrefSection::write_xref_section", "xref::XrefEntry::write_xref_entry"],
+  "every subset of in-use objects among ids 1..=4 (all gap widths): strict 7.5.4 table reader recovers exactly those entries", timeout=1800, mem_gb=12)
+H("c03_write_xref_6", "writer.rs", {"C03": T, "C01": T}, ["writer::Writer::write_xref", "xref::XrefSection::write_xref_section"],
+  "every subset of in-use objects among ids 1..=6", timeout=3000, mem_gb=16)
+H("c03_xref_stream_rows", "writer.rs", {"C03": Q, "C01": Q}, ["writer::Writer::create_xref_steam"],
+  "every subset of in-use objects among ids 1..=4 plus the stream's own entry: W [1 4 2] rows, Index pairs and Length are mutually consistent", timeout=1800, mem_gb=12)
+
+# ---------------------------------------------------------------- C14 content encode ------------
+H("c14_encode_two_ops", "content.rs", {"C14": Q}, ["content::Content::encode", "writer::Writer::write_object", "writer::Writer::write_name", "writer::Writer::write_string"],
+  "operations '<int -9..=99> /<1 byte> Tf' and '<1-byte string, literal or hex> Tj': reference tokenizer recovers operators and operands", timeout=1800, mem_gb=12,
+  stubs=["<[usize]>::contains -> linear scan"])
+H("c14_encode_no_operands", "content.rs", {"C14": Q}, ["content::Content::encode"], "one or two operand-less operations", timeout=600, mem_gb=6)
 
 
 def select(pid, tier):
